@@ -179,7 +179,7 @@ fn c25_taken_then_close() {
 
 // ===== harnesses (one Kani proof per line of the table in the file header) =====
 
-// @check props=C25 tier=quick
+// @check props=C25 tier=thorough
 // @desc TIME_BASED_FILTER with minimum_separation > 0, KEEP_ALL, BY_RECEPTION_TIMESTAMP, cache with exactly 1 stored sample(s): after one real add_reader_change any two stored samples of an instance are still at least minimum_separation apart (source timestamps; equal and out-of-order timestamps included); a change at least minimum_separation away from every stored sample of its instance is not filtered (never NotAdded); a filtered change leaves the cache untouched. Outside the triggers of KF-C25-1 and KF-C25-2.
 // @bounds exactly 1 stored sample(s), KEEP_ALL, BY_RECEPTION_TIMESTAMP, source timestamps None or sec 0..4 x nanosec {0, 5*10^8}, minimum_separation in {0.5 s, 1 s, ..., 2.5 s}, 2 instance handles (both registered), 2 writers, each resource limit in {1,2,3,unlimited} (QoS consistent), all 5 change kinds, instance_ownership empty; unwind 6
 // @assume pre-state: any two stored samples of an instance that carry a source timestamp are >= minimum_separation apart; R1-R3, KEEP_LAST and resource-limit invariants (all re-asserted after the step)
@@ -199,7 +199,7 @@ fn c25_filter_keep_all_n1__rest() {
     rest_covers(&x);
 }
 
-// @check props=C25 tier=thorough
+// @check props=C25 tier=quick
 // @desc TIME_BASED_FILTER with minimum_separation > 0, KEEP_ALL, BY_RECEPTION_TIMESTAMP, cache with exactly 2 stored sample(s): after one real add_reader_change any two stored samples of an instance are still at least minimum_separation apart (source timestamps; equal and out-of-order timestamps included); a change at least minimum_separation away from every stored sample of its instance is not filtered (never NotAdded); a filtered change leaves the cache untouched. Outside the triggers of KF-C25-1 and KF-C25-2.
 // @bounds exactly 2 stored sample(s), KEEP_ALL, BY_RECEPTION_TIMESTAMP, source timestamps None or sec 0..4 x nanosec {0, 5*10^8}, minimum_separation in {0.5 s, 1 s, ..., 2.5 s}, 2 instance handles (both registered), 2 writers, each resource limit in {1,2,3,unlimited} (QoS consistent), all 5 change kinds, instance_ownership empty; unwind 6
 // @assume pre-state: any two stored samples of an instance that carry a source timestamp are >= minimum_separation apart; R1-R3, KEEP_LAST and resource-limit invariants (all re-asserted after the step)
